@@ -200,11 +200,44 @@ def run_mutant(prop_id, f, m, tier, baseline_missed, idx):
         shutil.rmtree(scr, ignore_errors=True)
 
 
-def sweep(prop, base, k, seed, tier, baseline_missed):
+LINUX_FILES = ["psutil/__init__.py", "psutil/_common.py", "psutil/_pslinux.py", "psutil/_psposix.py"]
+
+
+def callees(anch):
+    """one level of helpers: functions/methods defined in psutil's Linux-side Python files that the anchored
+    functions call by name (module-level functions, methods of the same class via self.x(), _common.x, _psposix.x …)"""
+    srcs = {f: sh("git", "-C", REPO, "show", "HEAD:%s" % f).stdout for f in LINUX_FILES}
+    defs = {f: functions(srcs[f]) for f in LINUX_FILES}
+    by_short = {}
+    for f, fns in defs.items():
+        for q in fns:
+            by_short.setdefault(q.split(".")[-1], []).append((f, q))
+    out = {}
+    for f, quals in anch.items():
+        if f not in srcs:
+            continue
+        tree = ast.parse(srcs[f])
+        spans = [defs[f][q] for q in quals if q in defs[f]]
+        for node in ast.walk(tree):
+            if isinstance(node, ast.Call) and any(lo <= node.lineno <= hi for lo, hi in spans):
+                fn = node.func
+                name = fn.id if isinstance(fn, ast.Name) else (fn.attr if isinstance(fn, ast.Attribute) else None)
+                if name in ("add", "find", "remove", "sleep", "debug"):      # methods of builtins / logging: not helpers
+                    continue
+                for (f2, q2) in by_short.get(name, []):
+                    if q2 not in anch.get(f2, set()) and not q2.split(".")[-1].startswith("__"):
+                        out.setdefault(f2, set()).add(q2)
+    return out
+
+
+def sweep(prop, base, k, seed, tier, baseline_missed, with_callees=False):
     pid = prop["id"]
     rng = random.Random("%s-%d" % (pid, seed))
     cands = []
-    for f, quals in sorted(anchored_functions(prop, base).items()):
+    anch = anchored_functions(prop, base)
+    if with_callees:
+        anch = callees(anch)                     # ONLY the helpers (the anchored functions have their own sweeps)
+    for f, quals in sorted(anch.items()):
         src = sh("git", "-C", REPO, "show", "HEAD:%s" % f).stdout
         fns = functions(src)
         spans = [fns[q] for q in sorted(quals) if q in fns]
@@ -227,7 +260,7 @@ def sweep(prop, base, k, seed, tier, baseline_missed):
         print("%s %-9s %s:%d %s  %r -> %r  %s" % (pid, rec.get("verdict"), f, m["line"], m["op"], m["before"][:40], m["after"][:20],
                                                  rec.get("test_suite", "")), flush=True)
     os.makedirs(OUTDIR, exist_ok=True)
-    path = os.path.join(OUTDIR, pid + ".json")
+    path = os.path.join(OUTDIR, pid + ("-callees" if with_callees else "") + ".json")
     old = []
     if os.path.exists(path):
         try:
@@ -252,6 +285,8 @@ def main():
     ap.add_argument("--jobs", type=int, default=4)
     ap.add_argument("--tier", default="quick")
     ap.add_argument("--baseline-missed", action="store_true")
+    ap.add_argument("--callees", action="store_true",
+                    help="mutate the helpers the anchored functions call (one level) instead of the anchored functions")
     ap.add_argument("props", nargs="*")
     a = ap.parse_args()
     props = [json.loads(l) for l in open(os.path.join(HERE, "properties.jsonl")) if l.strip()]
@@ -259,7 +294,7 @@ def main():
         props = [p for p in props if p["id"] in a.props]
     base = base_commit()
     with ThreadPoolExecutor(max_workers=a.jobs) as ex:
-        futs = [ex.submit(sweep, p, base, a.per_prop, a.seed, a.tier, a.baseline_missed) for p in props]
+        futs = [ex.submit(sweep, p, base, a.per_prop, a.seed, a.tier, a.baseline_missed, a.callees) for p in props]
         for f in futs:
             f.result()
     sh("git", "-C", REPO, "worktree", "prune")
